@@ -328,6 +328,36 @@ func (applyStream) Generate(rng *rand.Rand, tier string, emit func(Case)) {
 	for i := 0; i < n; i++ {
 		o := genOci(rng)
 		e := genEdits(rng)
+		if i%10 == 0 {
+			// large lists (library sorting and merging must not depend on size): 8-24 existing mounts of
+			// mixed depth with many ties, 2-10 mounts in the edits, long env and hook lists
+			bigDest := func(k int) string {
+				switch k % 4 {
+				case 0:
+					return fmt.Sprintf("/big%d", k)
+				case 1:
+					return fmt.Sprintf("/big/%d", k)
+				case 2:
+					return fmt.Sprintf("/big/deep/%d", k)
+				}
+				return fmt.Sprintf("/big/deep/er/%d/", k)
+			}
+			perm := rng.Perm(40)
+			o.Mounts = nil
+			for k := 8 + rng.Intn(17); k > 0; k-- {
+				o.Mounts = append(o.Mounts, oci.Mount{Destination: bigDest(perm[k]), Source: fmt.Sprintf("/init%d", k), Type: "bind"})
+			}
+			e.Mounts = nil
+			for k := 2 + rng.Intn(9); k > 0; k-- {
+				e.Mounts = append(e.Mounts, &specs.Mount{HostPath: fmt.Sprintf("/edit%d", k), ContainerPath: bigDest(perm[25+rng.Intn(15)])})
+			}
+			for k := rng.Intn(20); k > 0; k-- {
+				e.Env = append(e.Env, fmt.Sprintf("BIG%d=v%d", rng.Intn(12), k))
+			}
+			for k := rng.Intn(16); k > 0; k-- {
+				e.Hooks = append(e.Hooks, &specs.Hook{HookName: []string{"prestart", "poststop", "createRuntime"}[rng.Intn(3)], Path: fmt.Sprintf("/bin/big%d", k)})
+			}
+		}
 		oj, _ := json.Marshal(o)
 		ej, _ := json.Marshal(e)
 		emit(Case{"op": "apply", "ocijson": string(oj), "editsjson": string(ej)})
